@@ -33,7 +33,7 @@ CLAIMED['C13'] = dict(
     technique='path enumeration of the switching rules with frame comparison at every rule boundary (abstract interpretation; typestate of the state object)',
     text='FRAME + SCOPE (DESIGN.md 4.2): for state, change_state(s), change_action(_and_state(s)), change_control, add_state, instantiate, enable/disable(_action), '
          'action, control and normal::match every path of every instantiation is enumerated; each rule-boundary call must replace exactly the documented frame '
-         'parameter; the new state is an automatic local, is what the sub-rule sees, and receives success exactly once iff the rule matched (and actions are enabled). '
+         'parameter; the new state is an automatic local, is what the sub-rule sees, and receives success exactly once iff the rule matched (and actions are enabled); a control switch enters the attached rule through the new control\'s match (decided where the new control declares one). '
          'Holds for all grammars and inputs by induction over rule nesting, which the test-suite cannot enumerate.',
     ref='4.2, 5/C13')
 
@@ -139,7 +139,7 @@ CLAIMED['C12'] = dict(
     text='Claims builder discipline and selection, not the whole-run statement: every instantiated handler hook pushes/pops exactly one frame, attaches only in success after the pop by appending to the '
          'frame below (any other mutation of a frame\'s children is reported), and stamps the span with the input positions; for witness grammars (unselected chains of depth 1..12 above a selected rule - beyond the leaf-optimisation depth of 8 -, recursion, '
          'store_all with internal sequences) the handler chosen for each rule is selected iff control is enabled and the selector selects it, and the frame-less leaf optimisation is only used when no '
-         'selected rule is reachable below; parse() returns the root iff the plain parse succeeded; transformers as documented; the hooks forwarded to the wrapped control are balanced per handler (unwind included when the control has it); the function Control< Rule >::match resolves to for a handler '
+         'selected rule is reachable below; parse() returns the root iff the plain parse succeeded; transformers as documented; every rule that the match() of a rule attempts is found from it through subs_t (what selection and the leaf optimisation read; one frozen exception, raw_string); the hooks forwarded to the wrapped control are balanced per handler (unwind included when the control has it); the function Control< Rule >::match resolves to for a handler '
          'enters every attempt through the handler\'s start (enumerated like the central dispatch). Together with C08 this excludes leftover nodes of backtracked or aborted branches.',
     ref='5/C12')
 
